@@ -148,6 +148,8 @@ def run(repo, chk):
         if not need_try and (exi or er):
             chk.ob("R06.1", f"root:try-present[{tag}]", False, where, "no try statement although #exit/#error is selected")
 
+    from .shared import meta_tag_agreement_obligations
+    meta_tag_agreement_obligations(repo, chk, "R06.1", H)
     # ------------------------------------------------------------------ R06.2
     for p in H.get("visit_For", []):
         T = p.template
@@ -155,6 +157,16 @@ def run(repo, chk):
             continue
         where = "ptera/transform.py (visit_For/delimit)"
         tag = ",".join(f"{k.split('|')[1]}:{k.split('|')[2]}={'T' if v else 'F'}" for k, v in p.decisions if k.startswith("kind|"))
+        if isinstance(T, list):
+            # the handler hands back a statement list: the loop is the For statement in it (statements around it are C01's business, not this rule's)
+            fors = [x for x in T if isinstance(x, Node) and x.cls == "For"]
+            if len(fors) == 1:
+                T = fors[0]
+        if not (isinstance(T, Node) and T.cls == "For"):
+            # the handler returns something other than one For statement (a statement list, a different node): the loop brackets cannot be located
+            chk.ob("R06.2", f"for:rewritten-loop-is-a-For-statement[{tag}]", False, where,
+                   f"visit_For no longer returns a single For statement ({Q.show(T, 160)}): #loop / #endloop brackets are defined on the loop the user wrote", nontrivial=False)
+            continue
         body = T.fields.get("body") or []
         tries = [s for s in body if isinstance(s, Node) and s.cls == "Try"]
         ok = len(body) == 1 and len(tries) == 1
